@@ -512,11 +512,13 @@ func generate(c *GenCtx) []Op {
 		genSkeleton(c, 2)
 		genSlices(c)
 		genBoundaryLengths(c)
+		genWrapPairs(c)
 	case "C02":
 		genArgs(c)
 		genTyped(c, c.n(20000, 400000), 3)
 		genSort(c)
 		genStrings(c)
+		genByteWindow(c)
 	case "C03":
 		genSlices(c)
 		genStrings(c)
@@ -555,6 +557,7 @@ func generate(c *GenCtx) []Op {
 		genSkeleton(c, 2)
 	case "C11":
 		genStrings(c)
+		genByteWindow(c)
 	case "C12":
 		genSlices(c)
 	case "C13":
